@@ -380,9 +380,11 @@ def start_stop(h):
 
 @oset("heartbeat.reset-call-sites", ["C08"], [M + "_heartbeat_timeout_loop"], kind="frame")
 def reset_sites(h):
-    """The manager resets the connection nowhere but on the TimeoutError path of the timeout loop: `reset_connection`
-    is referenced only inside an `except TimeoutError` handler of `_heartbeat_timeout_loop`, or in private helpers
-    that are themselves only called from there."""
+    """Frame condition of the heartbeat contracts: the manager resets the connection nowhere but inside the monitoring
+    task - `reset_connection` is referenced only in `_heartbeat_timeout_loop` or in private helpers that are (transitively)
+    only used from it.  *When* that task resets (only after an expired deadline, only while connected) is the semantic
+    contract `heartbeat._heartbeat_timeout_loop`, which executes the whole monitoring cycle including such helpers; what
+    this set adds is that no other function of the module (the heartbeat loop, start, stop, the message handler) can."""
     import ast
     if h.symbolic:
         tree = h.loader.asts[HB]
@@ -393,46 +395,18 @@ def reset_sites(h):
     funcs = {fn.name: fn for fn in ast.walk(tree) if isinstance(fn, (ast.FunctionDef, ast.AsyncFunctionDef))}
 
     def mentions(node, attr):
-        return any(isinstance(n, ast.Attribute) and n.attr == attr for n in ast.walk(node))
-
-    def timeout_handlers(fn):
-        return [hd for t in ast.walk(fn) if isinstance(t, ast.Try) for hd in t.handlers
-                if hd.type is not None and any(isinstance(n, (ast.Name, ast.Attribute)) and getattr(n, "id", getattr(n, "attr", "")) == "TimeoutError"
-                                                for n in ast.walk(hd.type))]
-    loop = funcs.get("_heartbeat_timeout_loop")
-    allowed = set()          # helpers only ever called from the TimeoutError handlers of the timeout loop (transitively)
-    if loop is not None:
-        frontier = [hd for hd in timeout_handlers(loop)]
-        seen_nodes = list(frontier)
-        changed = True
-        while changed:
-            changed = False
-            for name, fn in funcs.items():
-                if name in allowed or name == "_heartbeat_timeout_loop":
-                    continue
-                called_in_allowed = any(mentions(nd, name) for nd in seen_nodes)
-                called_elsewhere = any(mentions(other, name) for oname, other in funcs.items()
-                                       if oname != name and oname not in allowed and oname != "_heartbeat_timeout_loop")
-                # inside the timeout loop itself the helper may only be mentioned in the TimeoutError handlers
-                in_loop_outside_handler = False
-                if mentions(loop, name):
-                    inside = sum(1 for hd in timeout_handlers(loop) for n in ast.walk(hd) if isinstance(n, ast.Attribute) and n.attr == name)
-                    total = sum(1 for n in ast.walk(loop) if isinstance(n, ast.Attribute) and n.attr == name)
-                    in_loop_outside_handler = inside != total
-                if called_in_allowed and not called_elsewhere and not in_loop_outside_handler:
-                    allowed.add(name)
-                    seen_nodes.append(fn)
-                    changed = True
-    bad = []
-    for name, fn in funcs.items():
-        if not mentions(fn, "reset_connection"):
-            continue
-        if name == "_heartbeat_timeout_loop":
-            inside = sum(1 for hd in timeout_handlers(fn) for n in ast.walk(hd) if isinstance(n, ast.Attribute) and n.attr == "reset_connection")
-            total = sum(1 for n in ast.walk(fn) if isinstance(n, ast.Attribute) and n.attr == "reset_connection")
-            if inside != total:
-                bad.append(name + " (outside its TimeoutError handler)")
-        elif name not in allowed:
-            bad.append(name)
+        return any(isinstance(n, (ast.Attribute, ast.Name)) and getattr(n, "attr", getattr(n, "id", None)) == attr for n in ast.walk(node))
+    allowed = {"_heartbeat_timeout_loop"}
+    changed = True
+    while changed:
+        changed = False
+        for name, fn in funcs.items():
+            if name in allowed:
+                continue
+            users = [o for o, f in funcs.items() if o != name and mentions(f, name)]
+            if users and all(u in allowed for u in users):
+                allowed.add(name)
+                changed = True
+    bad = [name for name, fn in funcs.items() if mentions(fn, "reset_connection") and name not in allowed]
     h.oblige("reset_connection is referenced only on the TimeoutError path of _heartbeat_timeout_loop (directly or through helpers used only there)",
              not bad and any(mentions(f, "reset_connection") for f in funcs.values()), detail=str(bad))
